@@ -41,6 +41,8 @@ Definition L_host_streamhandler := cl fn_host_streamhandler host_streamhandler.
 Definition L_tcp_dial_scope := inline_all lib1 (cl fn_tcp_dial_scope tcp_dial_scope).
 Definition lib2 := ("tcp_dial_scope", L_tcp_dial_scope) :: lib1.
 Definition L_tcp_dial := inline_all lib2 (cl fn_tcp_dial tcp_dial).
+Definition L_ws_dial_scope := inline_all lib1 (cl fn_ws_dial_scope ws_dial_scope).
+Definition L_ws_dial := inline_all (("ws_dial_scope", L_ws_dial_scope) :: lib1) (cl fn_ws_dial ws_dial).
 
 Definition L_conn_addstream := cl fn_conn_addstream conn_addstream.
 Definition lib3 := [("conn_addstream", L_conn_addstream)].
@@ -69,7 +71,8 @@ Definition entries : list (string * bool * st * list (list aev)) :=
    ("BasicHost.NewStream", true, st0, L_host_newstream);
    ("listener.Accept iteration", true, st0, L_listener_accept);
    ("listener.handleIncoming loop iteration", false, st0, L_listener_loop);
-   ("BasicHost.newStreamHandler", false, st_sstream, L_host_streamhandler)].
+   ("BasicHost.newStreamHandler", false, st_sstream, L_host_streamhandler);
+   ("WebsocketTransport.Dial", true, st0, L_ws_dial)].
 
 Definition entry_ok (e : string * bool * st * list (list aev)) : bool :=
   let '(_, vr, init, ps) := e in forallb (path_ok vr init) ps.
